@@ -21,12 +21,16 @@ import (
 	"github.com/tink-crypto/tink-go/v2/keyderivation"
 	"github.com/tink-crypto/tink-go/v2/keyset"
 	"github.com/tink-crypto/tink-go/v2/mac"
+	cmackey "github.com/tink-crypto/tink-go/v2/mac/aescmac"
+	hmackey "github.com/tink-crypto/tink-go/v2/mac/hmac"
 	macsubtle "github.com/tink-crypto/tink-go/v2/mac/subtle"
 	"github.com/tink-crypto/tink-go/v2/monitoring"
 	"github.com/tink-crypto/tink-go/v2/prf"
 	tinkpb "github.com/tink-crypto/tink-go/v2/proto/tink_go_proto"
 	"github.com/tink-crypto/tink-go/v2/signature"
 	"github.com/tink-crypto/tink-go/v2/signature/compositemldsa"
+	ecdsakey "github.com/tink-crypto/tink-go/v2/signature/ecdsa"
+	ed25519key "github.com/tink-crypto/tink-go/v2/signature/ed25519"
 	"github.com/tink-crypto/tink-go/v2/signature/mldsa"
 	"github.com/tink-crypto/tink-go/v2/signature/slhdsa"
 	sigsubtle "github.com/tink-crypto/tink-go/v2/signature/subtle"
@@ -43,13 +47,21 @@ import (
 // pass reports – and corrupts nothing visible only by luck.
 func spare(b []byte) []byte { return append(make([]byte, 0, len(b)+48), b...) }
 
+// The inputs of all threads are ADJACENT sub-slices of ONE shared buffer (the caller keeps header, messages and
+// associated data in one allocation): the spare capacity of each slice IS the next input. An operation that appends
+// to its argument writes into what another thread is reading. The buffer is restored before every execution and
+// before every sequential reference call, so that such a write cannot hide by being idempotent.
 var (
-	msgA = spare(ref.Pattern(2, 5))
-	msgB = spare(ref.Pattern(3, 40))
-	msgC = spare(ref.Pattern(2, 17))
-	adA  = spare([]byte("ad-A"))
-	adB  = spare([]byte("associated-data-B-longer"))
+	inputMaster = bytes.Join([][]byte{ref.Pattern(2, 5), ref.Pattern(3, 40), ref.Pattern(2, 17), []byte("ad-A"), []byte("associated-data-B-longer"), make([]byte, 48)}, nil)
+	inputShared = bytes.Clone(inputMaster)
+	msgA        = inputShared[0:5]
+	msgB        = inputShared[5:45]
+	msgC        = inputShared[45:62]
+	adA         = inputShared[62:66]
+	adB         = inputShared[66:90]
 )
+
+func resetInputs() { copy(inputShared, inputMaster) }
 
 func must[T any](v T, err error) T {
 	if err != nil {
@@ -763,6 +775,20 @@ func registerScenarios() {
 	sigScen("composite-mldsa65-ed25519", func() *keyset.Handle {
 		return handleFromParams(must(compositemldsa.NewParameters(compositemldsa.Ed25519, compositemldsa.MLDSA65, compositemldsa.VariantTink)))
 	}, true)
+	// LEGACY output prefix: sign / MAC over data || 0x00 (the inputs are shared slices with spare capacity)
+	sigScen("ed25519-legacy-variant", func() *keyset.Handle {
+		p := must(ed25519key.NewParameters(ed25519key.VariantLegacy))
+		return handleFromParams(&p)
+	}, true)
+	sigScen("ecdsa-p256-legacy-variant", func() *keyset.Handle {
+		return handleFromParams(must(ecdsakey.NewParameters(ecdsakey.NistP256, ecdsakey.SHA256, ecdsakey.DER, ecdsakey.VariantLegacy)))
+	}, true)
+	macScen("hmac-legacy-variant", func() *keyset.Handle {
+		return handleFromParams(must(hmackey.NewParameters(hmackey.ParametersOpts{KeySizeInBytes: 32, TagSizeInBytes: 16, HashType: hmackey.SHA256, Variant: hmackey.VariantLegacy})))
+	})
+	macScen("aescmac-legacy-variant", func() *keyset.Handle {
+		return handleFromParams(must(cmackey.NewParameters(cmackey.ParametersOpts{KeySizeInBytes: 32, TagSizeInBytes: 16, Variant: cmackey.VariantLegacy})))
+	})
 	sigScen("legacy-adapter-custom-keymanager", legacySigHandle, true)
 	macScen("legacy-adapter-custom-keymanager", legacyMACHandle)
 	crossOf(sigScen("slhdsa-sha2-128s-verify", func() *keyset.Handle {
